@@ -175,6 +175,12 @@ def memo_guard(f, lp, l, exclude=frozenset()):
     latch_ops = [o for p, o in zip(preds, v[2]) if p in lp.body]
     has_carry = False
     for o in latch_ops:
+        # the value handed to the next tuple comes out of an inner loop that started from the carried value
+        # (a budget or counter shared by all tuples): not a memo, whatever its shape
+        if not any(is_carry(lf, h, l) for lf in leaves(o, h)) and o[0] == "loopphi" and o[1][0] != h and \
+                l in mentions_loopphi(o, h, f):
+            return False, "%s is carried on through an inner loop from one tuple to the next (it is not re-initialised " \
+                          "per tuple)" % f.lname(l)
         for lf in leaves(o, h):
             if is_carry(lf, h, l):
                 has_carry = True
